@@ -863,6 +863,54 @@ theorem filtered_version_only_kept (root : String) (ps : List PA) (clientNs : St
   · simp only [initAuthn, versionKeys, List.mem_map]
     exact ⟨p, mem_sorted.mpr hp, rfl⟩
 
+/-! ### Push propagation: the configs the decision reads are config dependencies of the proxy -/
+
+theorem mem_sidecarView_peerAuths {root : String} {ps : List PA} {clientNs : String} {importedNs : List String} {p : PA}
+    (h1 : p ∈ (initAuthn root ps).peerAuths) (h2 : p.ns ∈ clientNs :: root :: importedNs) :
+    p ∈ (sidecarView root ps clientNs importedNs).peerAuths := by
+  show p ∈ (initAuthn root ps).peerAuths.filter (fun c => (clientNs :: root :: importedNs).contains c.ns)
+  exact List.mem_filter.mpr ⟨h1, by simpa using h2⟩
+
+/-- **dependencies_cover_spec.**  Every policy the specification reads for a workload of a kept namespace - the
+    mesh policy, the namespace policy, the workload policy - is a config dependency of the client proxy: a
+    change of any of them is pushed to it (`DependsOnConfig`). -/
+theorem dependencies_cover_spec {ps : List PA} (hu : UniqueKeys ps) (root clientNs : String) (importedNs : List String)
+    (w : Workload) (hw : w.ns ∈ clientNs :: root :: importedNs) (p : PA)
+    (h : meshPolicy ps root = some p ∨ nsPolicy ps root w.ns = some p ∨ wlPolicy ps root w = some p) :
+    (p.ns, p.name) ∈ sidecarDeps root ps clientNs importedNs := by
+  refine List.mem_map.mpr ⟨p, ?_, rfl⟩
+  have hnsPol : ∀ n, (sortByCreation ps).find? (isNsPol n) = some p → n ∈ clientNs :: root :: importedNs →
+      p ∈ (sidecarView root ps clientNs importedNs).peerAuths := by
+    intro n hf hn
+    have hm : p ∈ (initAuthn root ps).peerAuths.filter (isNsPol n) := by
+      rw [initAuthn_kept_ns, hf]; simp
+    have hp := List.mem_filter.mp hm
+    have hns : p.ns = n := by
+      have := hp.2; simp only [isNsPol, Bool.and_eq_true, beq_iff_eq] at this; exact this.2
+    exact mem_sidecarView_peerAuths hp.1 (hns ▸ hn)
+  rcases h with h | h | h
+  · rw [meshPolicy_eq hu] at h
+    exact hnsPol root h (by simp)
+  · rw [nsPolicy_eq hu] at h
+    by_cases hr : w.ns = root
+    · simp [hr] at h
+    · simp only [hr, if_false] at h
+      exact hnsPol w.ns h hw
+  · rw [wlPolicy_eq hu] at h
+    by_cases hr : w.ns = root
+    · simp [hr] at h
+    · simp only [hr, if_false] at h
+      have hc := List.find?_some h
+      have hmem := List.mem_of_find?_eq_some h
+      have hm : p ∈ (initAuthn root ps).peerAuths.filter (fun q => !q.nsLevel && (fun _ => true) q) := by
+        rw [initAuthn_kept_sel root (fun _ => true) ps]
+        refine List.mem_filter.mpr ⟨hmem, ?_⟩
+        simp only [wlCand, Bool.and_eq_true] at hc
+        simp [hc.1]
+      have hns : p.ns = w.ns := by
+        simp only [wlCand, Bool.and_eq_true, beq_iff_eq] at hc; exact hc.2.1
+      exact mem_sidecarView_peerAuths (List.mem_filter.mp hm).1 (hns ▸ hw)
+
 /-! ## Non-vacuity: concrete policies meeting the hypotheses, with ties and several per level -/
 
 def exPolicies : List PA :=
